@@ -85,6 +85,8 @@ def main():
     v = old.get("checks", {})
     v.update(verdicts)
     meta["checks"] = v
+    # what the checks said the first time this refactoring was tried (kept for DESIGN.md section 8.2)
+    meta["first_alarms"] = old.get("first_alarms", sorted(p for p, x in verdicts.items() if x["rc"] != 0)) if (old or len(verdicts) == 18) else None
     json.dump(meta, open(os.path.join(dst, "meta.json"), "w"), indent=1)
     alarms = [p for p, x in verdicts.items() if x["rc"] != 0]
     stale = [p for p, x in v.items() if x["rc"] != 0 and p not in verdicts]
